@@ -18,7 +18,8 @@ Ev == Trace[l]
 
 Line(e, st, d, now) ==
   IF d.st # "ok" THEN [i |-> e.i, ev |-> e.ev, st |-> d.st]
-  ELSE [i |-> e.i, ev |-> e.ev, st |-> "ok", strict |-> d.strict, key |-> d.t.key, alg |-> d.t.alg,
+  ELSE [i |-> e.i, ev |-> e.ev, st |-> "ok", wf |-> d.wf, strict |-> d.strict, key |-> d.t.key, alg |-> d.t.alg,
+        class |-> d.t.class, ttl |-> d.t.ttl,
         digest |-> d.digest, mac |-> d.t.mac, timeok |-> InWindow(now, d.t.time, d.t.fudge)]
 
 WellFormed(e) == /\ Has(e, "i") /\ Has(e, "ev") /\ Has(e, "octets") /\ IsOctets(e.octets)
